@@ -562,7 +562,10 @@ pub fn oracle_c08_paged(base: &str, n: usize, k: usize) -> Verdict {
                 }
             }
             if got.iter().any(|(a, b)| a != b) {
-                return Err(format!("{} pairs read as a page of {} then the rest: (shape, row) = {:?}", n, k, got));
+                return Err(format!("{} pairs read as a page of {} then the rest: (shape, row) = {:?}", n, k, &got[..got.len().min(12)]));
+            }
+            if got.len() != n || got.iter().enumerate().any(|(i, (a, _))| *a != i) {
+                return Err(format!("{} pairs were written, {} were read back (as a page of {} then the rest)", n, got.len(), k));
             }
         }
         Ok(())
